@@ -132,7 +132,7 @@ def run(chk):
             variant, ords = None, None
             if oracle:
                 variant, ords, detail = pick_variant(oracle, case, ref)
-                variants[variant] = variants.get(variant, 0) + 1
+                variants[str(variant)] = variants.get(str(variant), 0) + 1
                 chk.case(("T", ckey(case)))
                 if variant is None:
                     corr_broken.append({"what": "call trace differs from the model", "case": case, "detail": detail})
